@@ -53,6 +53,7 @@ type Obligation struct {
 	ctx     *Ctx
 	state   int  // id of the symbolic state the obligation was generated in
 	Soft    bool // overflow etc.: never a violation
+	Restricted bool // Props comes from a clause-level restriction
 	Vacuity bool // expected to be SAT (reachability cover)
 	// results
 	Status  string // discharged | failed | unknown
